@@ -79,15 +79,38 @@ Section Spec.
     | (o, x) :: t => let '(r', ok) := reg_step r o x in ok /\ accepts r' t
     end.
 
-  (** ** C13 *)
-  Definition map_cost (m : amap entry) : Z :=
-    fold_right (fun ke z => (Z.of_N (e_cost (snd ke)) + z)%Z) 0%Z m.
-  Definition resident_cost (s : state) : Z :=
-    fold_right (fun j z => (map_cost (smap s j) + z)%Z) 0%Z (nseq (c_shards c)).
+  (** ** C12 *)
+  (* [o] at state [s] handed the caller the stored value [v] of key [k] *)
+  Definition served (s : state) (o : op) (k v : N) : Prop :=
+    match o with
+    | OGet k' | OFetch k' | OPeek k' | OEntryGet k' | OComputeVal k' _ =>
+        k' = k /\ snd (step P c s o) = ROpt (Some v)
+    | OEntryOrInsert k' _ _ =>
+        (* entry(k) was Occupied and or_insert returned what it held *)
+        k' = k /\ exists e, occupied P c s k = Some e /\ e_val e = v
+    | OMultiGet _ | OMultiGetAsync _ =>
+        exists l, snd (step P c s o) = RPairs l /\ In (k, v) l
+    | _ => False
+    end.
 
-  (** ** C16 *)
-  Definition is_maint (o : op) : bool :=
-    match o with OMaint _ | OJanitorTick _ _ | OJanitorSignal _ _ => true | _ => false end.
+  Definition is_entry_op (o : op) : bool :=
+    match o with OEntryGet _ | OEntryOrInsert _ _ _ => true | _ => false end.
+  Definition is_compute_op (o : op) : bool :=
+    match o with OComputeVal _ _ | OCompute _ _ => true | _ => false end.
+
+  (* the first sentence of C12: whatever is served is unexpired *)
+  Definition C12_served_live : Prop :=
+    forall s o k v, served s o k v ->
+      exists e, find P c s k = Some e /\ e_val e = v /\ live (st_now P s) e.
+
+  (* o refreshes k's idle timer when it hits *)
+  Definition refreshes (o : op) (k : N) : bool :=
+    match o with
+    | OGet k' | OFetch k' => N.eqb k k'
+    | OMultiGet ks | OMultiGetAsync ks => mem k ks
+    | _ => false
+    end.
+
   (* o explicitly removes k *)
   Definition removes (o : op) (k : N) : bool :=
     match o with
@@ -103,6 +126,27 @@ Section Spec.
     | OClear => true
     | _ => false
     end.
+
+  (* the second sentence of C12: on an unbounded cache no operation other than an
+     explicit removal/overwrite of k makes an unexpired entry of k disappear *)
+  Definition C12_present : Prop :=
+    c_cap c = U64_MAX ->
+    forall s o k e,
+      wf s -> (forall j k', In k' (akeys (smap s j)) -> shard_of c k' = j) ->
+      find P c s k = Some e ->
+      live (st_now P (fst (step P c s o))) e ->
+      removes o k = false -> silent o k = false ->
+      exists e', find P c (fst (step P c s o)) k = Some e' /\ e_id e' = e_id e /\ e_exp e' = e_exp e.
+
+  (** ** C13 *)
+  Definition map_cost (m : amap entry) : Z :=
+    fold_right (fun ke z => (Z.of_N (e_cost (snd ke)) + z)%Z) 0%Z m.
+  Definition resident_cost (s : state) : Z :=
+    fold_right (fun j z => (map_cost (smap s j) + z)%Z) 0%Z (nseq (c_shards c)).
+
+  (** ** C16 *)
+  Definition is_maint (o : op) : bool :=
+    match o with OMaint _ | OJanitorTick _ _ | OJanitorSignal _ _ => true | _ => false end.
 End Spec.
 
 (* order-preserving sub-list *)
